@@ -201,7 +201,7 @@ func (propC02) Draw(rt *rapid.T, w *WorldDesc, mode string) *Plan {
 		op.RespBin = mustMarshal(md.NewResp())
 		op.ReqChunks = drawChunks(rt, l+".reqChunks")
 		op.DelaysMs = drawDelays(rt, l+".delays")
-		op.DeadlineMs = 60000
+		op.DeadlineMs = 3600000 // virtual time is free: a slowly delivered request must not run into the caller's own deadline
 		p.Ops = append(p.Ops, op)
 	}
 	p.Schedule = drawSchedule(rt, 32)
